@@ -1,7 +1,8 @@
 package main
 
-// fmtcheck: the pipeline shared by C02 and C03 - GEN trees from spec/GrolSyntax.tla, sources in three
-// styles, seeded random programs, byte-level mutations of the shipped .gr files, function values;
+// fmtcheck: the pipeline shared by C02 and C03 - GEN trees (and, family "source", texts) from spec/GrolSyntax.tla,
+// sources in three styles, seeded random programs, byte-level mutations of the shipped .gr files, function values;
+// each source goes to the printer by the routes of fmtcore.go (ast, repl, modify, line);
 // records made on the real code (fmtcore.go) and judged by spec/Format_Trace.tla.
 
 import (
@@ -15,6 +16,7 @@ import (
 	"sort"
 	"strings"
 	"sync"
+	"time"
 )
 
 type fmtCase struct {
@@ -24,6 +26,7 @@ type fmtCase struct {
 	Src    string
 	Exh    bool     // member of an exhaustive (TLC-enumerated) set
 	GenOff []string // features switched off in the random generator
+	Vias   []string // routes to the printer (nil = the default for the style)
 }
 
 type fmtVerdict struct {
@@ -74,6 +77,27 @@ func (fr *fmtRun) addFn(src string) {
 	}
 }
 
+// fnLawRecords: one TLC record per distinct CONTENT of the function-value records (the rebuilt-tree route writes, on a
+// healthy tree, the text of the plain route: equal content, one verdict - lossless, as for the format records).
+func (fr *fmtRun) fnLawRecords(base int) (recs []J, idOf []int) {
+	seen := map[string]int{}
+	idOf = make([]int, len(fr.fnItems))
+	for i, r := range fr.fnItems {
+		j := r.lawJSON(0)
+		delete(j, "id")
+		b, _ := json.Marshal(j)
+		id, ok := seen[string(b)]
+		if !ok {
+			id = base + len(recs)
+			seen[string(b)] = id
+			j["id"] = id
+			recs = append(recs, j)
+		}
+		idOf[i] = id
+	}
+	return recs, idOf
+}
+
 // addFnStatements: every top-level statement of a program that defines a function.
 func (fr *fmtRun) addFnStatements(prog []any) {
 	for _, st := range prog {
@@ -99,13 +123,21 @@ func (fr *fmtRun) add(cs fmtCase) (parsed bool) {
 		return true
 	}
 	fr.seenSrc[cs.Src] = true
-	vias := []string{"ast", "repl"}
+	// routes to the printer: "ast" always; the repl path and the rebuilt tree (identity ast.Modify) for the minimal
+	// rendering and for texts used as they are; a family can name its own routes
+	vias := []string{"ast", "repl", "modify"}
 	if cs.Style == "parens" || cs.Style == "ws" {
-		vias = vias[:1] // the repl path is taken for the minimal rendering and for texts used as they are
+		vias = vias[:1]
 	}
-	for _, via := range vias {
+	if cs.Vias != nil {
+		vias = cs.Vias
+	}
+	for vi, via := range vias {
 		rec, ok := fmtRecord(cs.Src, via)
 		if !ok {
+			if vi > 0 {
+				continue // the other lexer mode does not accept the text (outside the quantifier for that route)
+			}
 			fr.rejected[cs.Fam]++
 			return false
 		}
@@ -135,6 +167,7 @@ type genLine struct {
 	Fam  string          `json:"fam"`
 	Name json.RawMessage `json:"name"`
 	T    []any           `json:"t"`
+	Src  *string         `json:"src"` // source-level families: a text, not a tree
 	// prec line
 	Prec   map[string]int    `json:"prec"`
 	Assoc  map[string]string `json:"assoc"`
@@ -153,7 +186,7 @@ func fmtGenCfg(thorough bool) string {
 		t = "TRUE"
 	}
 	return `CONSTANTS
- Families = {"prec","oppair","signs","depth3","stmtpair","stmt","comment","string","literal","func","fnbody","spine","sibling"}
+ Families = {"prec","oppair","signs","depth3","stmtpair","stmt","comment","string","literal","func","fnbody","spine","sibling","spinefn","cmtfirst","dotnum","mlcomment","source"}
  Thorough = ` + t + "\nINIT Init\nNEXT Next\n"
 }
 
@@ -181,29 +214,64 @@ func checkPrecTable(g genLine) error {
 }
 
 // genTrees runs the TLC generator and renders every emitted tree in the three styles.
-func (fr *fmtRun) genTrees() error {
+func (fr *fmtRun) genTrees() error { return fr.genStart()() }
+
+// genStart starts the TLC generator (an external process) and returns the function that waits for it and makes the
+// records; what does not depend on the generated trees (pinned, random, shipped sources) can be recorded meanwhile.
+func (fr *fmtRun) genStart() func() error {
 	c := fr.c
-	r, err := c.TLC(TLCOpt{Spec: "GrolSyntax", Cfg: fmtGenCfg(c.Thorough()), Workers: 4})
-	if err != nil {
-		return err
+	tTLC := time.Now()
+	type res struct {
+		r   *TLCResult
+		err error
 	}
+	ch := make(chan res, 1)
+	go func() {
+		r, err := c.TLC(TLCOpt{Spec: "GrolSyntax", Cfg: fmtGenCfg(c.Thorough()), Workers: 4})
+		ch <- res{r, err}
+	}()
+	return func() error {
+		x := <-ch
+		if x.err != nil {
+			return x.err
+		}
+		return fr.genRecords(x.r, tTLC)
+	}
+}
+
+func (fr *fmtRun) genRecords(r *TLCResult, tTLC time.Time) error {
+	c := fr.c
+	var err error
 	precSeen := false
 	treesByFam := map[string]int{}
 	nTrees := 0
 	selfCheck := 0
+	famTime := map[string]time.Duration{}
+	tGen := time.Now()
 	err = ReadLines(r.Emitted, func(line []byte) error {
 		var g genLine
 		if err := json.Unmarshal(line, &g); err != nil {
 			return fmt.Errorf("GEN line: %w", err)
 		}
+		t0 := time.Now()
+		defer func() { famTime[g.Fam] += time.Since(t0) }()
 		if g.Fam == "prec" {
 			precSeen = true
 			return checkPrecTable(g)
 		}
 		nTrees++
 		treesByFam[g.Fam]++
-		comparable := fmtNormTree(g.T)
 		name := string(g.Name)
+		if g.Src != nil {
+			// a TEXT: whatever the real parser makes of it - in the whole-file lexer mode, in the REPL's line mode, and
+			// rebuilt by ast.Modify - is under the laws; a text it rejects is outside the quantifier
+			if fr.add(fmtCase{Fam: g.Fam, Name: name, Style: "as-is", Src: *g.Src, Exh: true, Vias: []string{"ast", "line", "modify"}}) &&
+				(strings.HasPrefix(*g.Src, "func g(x) {") || strings.HasPrefix(*g.Src, "f = x => {")) {
+				fr.addFn(*g.Src) // the text defines a function: its value is printed by Inspect / SaveGlobals too
+			}
+			return nil
+		}
+		comparable := fmtNormTree(g.T)
 		rng := rand.New(rand.NewSource(c.Seed*1000003 + int64(nTrees)))
 		min, beyond := fmtRenderProgram(g.T, fsMin, nil)
 		par, beyondP := fmtRenderProgram(g.T, fsParens, nil)
@@ -224,7 +292,7 @@ func (fr *fmtRun) genTrees() error {
 			}
 		}
 		ws, _ := fmtRenderProgram(g.T, fsWS, rng)
-		if g.Fam == "func" || g.Fam == "stmt" || g.Fam == "fnbody" {
+		if g.Fam == "func" || g.Fam == "stmt" || g.Fam == "fnbody" || g.Fam == "spinefn" || g.Fam == "cmtfirst" || g.Fam == "dotnum" {
 			fr.addFnStatements(g.T)
 		}
 		want := ""
@@ -232,7 +300,7 @@ func (fr *fmtRun) genTrees() error {
 			want = canonDump(g.T)
 		}
 		styles := []struct{ st, src string }{{"min", min}, {"parens", par}, {"ws", ws}}
-		if g.Fam == "fnbody" {
+		if g.Fam == "fnbody" || g.Fam == "spinefn" {
 			styles = styles[:1] // this family is about the function-VALUE printer; the source printer gets the minimal text only
 		}
 		for _, v := range styles {
@@ -260,6 +328,13 @@ func (fr *fmtRun) genTrees() error {
 	})
 	if err != nil {
 		return err
+	}
+	if os.Getenv("VERIF_FMT_DUMP") != "" {
+		fmt.Printf("TIME GEN TLC %.1fs, records %.1fs:", tGen.Sub(tTLC).Seconds(), time.Since(tGen).Seconds())
+		for f, d := range famTime {
+			fmt.Printf(" %s=%.1f", f, d.Seconds())
+		}
+		fmt.Println()
 	}
 	if !precSeen {
 		return fmt.Errorf("GrolSyntax did not emit its operator table")
